@@ -2018,6 +2018,24 @@ class Workflow(Trellis):
         # with an IntegrityError (CHECK creator != i) instead of a message for the plan author.
         if isinstance(creator, Step) and creator.label == step_label:
             raise GraphError(f"Step ({step_label}) cannot define itself.")
+        # Neither can a step define one of its own (indirect) creators again.
+        # That only gets this far when the creators are detached (an attached one is refused by
+        # `_raise_if_step_exists`), e.g. while both are still running after their own creator
+        # failed. A full recycle would then close a cycle of creator links (`Node.reattach`),
+        # on which `Step._flag_checks_with_products` (WITH RECURSIVE ... UNION ALL) never
+        # terminates. UNION (not UNION ALL) makes this walk finite whatever the links are.
+        if isinstance(creator, Step):
+            sql = (
+                "WITH RECURSIVE chain(i) AS ("
+                "SELECT creator FROM node WHERE i = ? "
+                "UNION SELECT node.creator FROM node JOIN chain ON node.i = chain.i"
+                ") SELECT 1 FROM chain JOIN node ON node.i = chain.i "
+                "WHERE node.kind = ? AND node.label = ?"
+            )
+            if self.db.execute(sql, (creator.i, Step.kind(), step_label)).fetchone() is not None:
+                raise GraphError(
+                    f"Step ({creator.label}) cannot define its own creator ({step_label})."
+                )
         self._raise_if_glob_match(step_label, out_paths + vol_paths)
 
         # If a compatible detached step is found, fully recycle it, instead of creating a new one.
